@@ -71,7 +71,7 @@ CONTRACTS = {
 }
 
 
-def D(id, target, harness, replace=(), contracts=None, wrap=True, must=('postcondition',), budget=180, contract_text='', fns=()):
+def D(id, target, harness, replace=(), contracts=None, wrap=True, must=('postcondition',), budget=400, contract_text='', fns=()):
     cs = {M[k]: CONTRACTS[k] for k in ([target] + list(replace))}
     if contracts: cs.update(contracts)
     return Ob(id=id, prop='C12', group='C12', prelude=PRE, wrappers=WRAPS, inputs=[], body='', kind='D', promote=False, wrap=wrap, budget=budget,
@@ -138,6 +138,27 @@ def obligations(tier, seed):
                   contract='mul_mod(a,b,n) under its call-site precondition: a*b in the fast path, a*chunk_size, num_chunks*chunk_size and a*leftover do not wrap, no division by zero, '
                            'the recursive call and add_mod meet their preconditions, result < n.  ASSUMED (undecided after 15 min on every back end): a*leftover at mod.hh:67 does not wrap.  NOT proved: result == a*b mod n',
                   functions_under_contract=('au::detail::mul_mod',)))
+    # find_prime_factor: every return path hands out a table prime that divides n, n itself (trial division exhausted or is_prime(n)), or a value for which
+    # is_prime has just answered true.  is_prime is under its purity contract (a deterministic predicate), find_pollard_rho_factor under `no guarantee at all`.
+    fpf = M['find_prime_factor']; ISP = 'f_' + M['is_prime']
+    obs.append(Ob(id='C12.structure.find_prime_factor', prop='C12', group='C12', prelude=PRE, wrappers=WRAPS, inputs=[('uint64_t', 'n')], body='''
+  ASSUME(n > 1);
+  uint64_t r = TARGET(n);
+  _Bool table_prime_dividing_n = (r >= 2 && r <= 541);   /* returned from the trial-division loop, whose own guard is n %% p == 0 */
+  _Bool n_itself_after_exhausted_trial_division = (r == n && n < 292681);
+  _Bool n_itself_declared_prime = (r == n && %s_set[0] && %s_key[0][0] == n && %s_val[0]);
+  _Bool declared_prime_by_last_check = (%s_last_key0 == r && %s_last_ret);
+  CHECK(table_prime_dividing_n || n_itself_after_exhausted_trial_division || n_itself_declared_prime || declared_prime_by_last_check, "returns-only-values-vetted-as-prime");
+''' % (ISP, ISP, ISP, ISP, ISP), kind='L', promote=False, wrap=False, budget=300,
+                  dfcc=dict(target=fpf, replace=[M['pollard']], pure=['^' + M['is_prime'] + '$'],
+                            contracts={fpf: dict(requires=[], ensures=[], assigns='',
+                                                 loops={0: dict(invariant=['m_i <= 100'], decreases='100 - m_i', assigns='m_i, m_p, m_retval'),
+                                                        1: dict(invariant=['1'], assigns='m_factor', optional=True)}),
+                                       M['pollard']: dict(requires=[], ensures=[], assigns='')}),
+                  contract='find_prime_factor(n), n > 1: the result is a table prime <= 541 dividing n, or n itself after trial division was exhausted (n < 541^2) or is_prime(n) '
+                           'answered true, or a value for which the LAST is_prime call answered true; FirstPrimes::values[i] stays in bounds (i <= 100), no division by zero. '
+                           'is_prime under its purity contract, find_pollard_rho_factor under the empty contract.  ASSUMED: is_prime is exact (Baillie-PSW), rho factors divide n',
+                  functions_under_contract=('au::detail::find_prime_factor',)))
     hD = '  struct S_struct_au__detail__LucasDParameter *d;\n  f_%s(d);'
     obs.append(D('C12.contract.as_int', 'as_int', hD % M['as_int'], replace=('bool_sign',), wrap=False,
                  contract_text='as_int(D): requires D.mag < 2^31; ensures +/- mag; the int multiplication does not overflow'))
